@@ -16,15 +16,18 @@ open Bp7
 inductive Op where
   | add (c : Canon)
   | setPayload (d : Bytes)
-  | setPayloadBlock (flags : Nat) (d : Bytes)
+  | setPayloadBlock (num flags : Nat) (d : Bytes)   -- a payload block carrying any requested number
   | setCrc (t : Nat)
   | upd (node : Eid) (rt now : Nat)
   deriving Repr
 
+/-- a payload block as a caller may hand it in: any block number (e.g. 0 from `CanonicalBlock::new`) -/
+def payloadBlockReq (n f : Nat) (d : Bytes) : Canon := { newPayloadBlock f d with num := n }
+
 def step (b : Bundle) : Op → Bundle
   | .add c => b.addBlock c
   | .setPayload d => b.setPayload d
-  | .setPayloadBlock f d => b.setPayloadBlock (newPayloadBlock f d)
+  | .setPayloadBlock n f d => b.setPayloadBlock (payloadBlockReq n f d)
   | .setCrc t => b.setCrc t
   | .upd node rt now => (b.updateExtensions node rt now).bundle
 
@@ -38,7 +41,7 @@ def blockOk (p : Primary) (c : Canon) : Prop := c.wf = true ∧ C07.localOk p c
 def OpOk (p : Primary) : Op → Prop
   | .add c => c.wf = true ∧ (c.btype = PAYLOAD_BLOCK ∨ C07.localOk p c)
   | .setPayload d => d.length < U64
-  | .setPayloadBlock f d => f < 256 ∧ d.length < U64 ∧ C07.localOk p (newPayloadBlock f d)
+  | .setPayloadBlock _ f d => f < 256 ∧ d.length < U64 ∧ C07.localOk p (newPayloadBlock f d)
   | .setCrc t => t ≤ 2
   | .upd node _ _ => node.wf = true ∧ eidOk node = true ∧ (encEid node).length < U64
 
@@ -451,9 +454,14 @@ theorem inv_add (b : Bundle) (h : Inv b) (c : Canon) (hok : OpOk b.primary (.add
         · simpa using hx
       exact blockByType_none b h.blocks c.btype this
 
+/-- the number a caller put on the payload block is irrelevant: it is forced to 1 -/
+theorem setPayloadBlock_num (b : Bundle) (n f : Nat) (d : Bytes) :
+    b.setPayloadBlock (payloadBlockReq n f d) = b.setPayloadBlock (newPayloadBlock f d) := by
+  simp [Bundle.setPayloadBlock, Bundle.addBlock, payloadBlockReq, newPayloadBlock]
+
 /-- **C11 (set_payload_block).** The (type, number) list is unchanged. -/
 theorem inv_setPayloadBlock (b : Bundle) (h : Inv b) (f : Nat) (d : Bytes)
-    (hok : OpOk b.primary (.setPayloadBlock f d)) :
+    (hok : OpOk b.primary (.setPayloadBlock 1 f d)) :
     Inv (b.setPayloadBlock (newPayloadBlock f d)) ∧
     (b.setPayloadBlock (newPayloadBlock f d)).payload = some d ∧
     (b.setPayloadBlock (newPayloadBlock f d)).canon.length = b.canon.length := by
@@ -640,7 +648,7 @@ theorem payload_upd (b : Bundle) (node : Eid) (rt now : Nat) :
 /-- the payload a step leaves behind -/
 def payloadAfter (cur : Option Bytes) : Op → Option Bytes
   | .setPayload d => some d
-  | .setPayloadBlock _ d => some d
+  | .setPayloadBlock _ _ d => some d
   | _ => cur
 
 theorem step_primary (b : Bundle) (op : Op) : ∃ x, (step b op).primary = { b.primary with crc := x } := by
@@ -652,7 +660,7 @@ theorem step_primary (b : Bundle) (op : Op) : ∃ x, (step b op).primary = { b.p
     split
     · rfl
     · split <;> rfl
-  | setPayloadBlock f d =>
+  | setPayloadBlock n f d =>
     refine ⟨b.primary.crc, ?_⟩
     simp only [step, Bundle.setPayloadBlock, Bundle.addBlock]; split <;> rfl
   | setCrc t => exact ⟨CrcVal.ofType t, rfl⟩
@@ -675,9 +683,12 @@ theorem inv_step (b : Bundle) (h : Inv b) (op : Op) (hok : OpOk b.primary op)
   | setPayload d =>
     obtain ⟨h1, h2, h3⟩ := inv_setPayload b h d hok
     exact ⟨h1, h2, by show (b.setPayload d).canon.length ≤ _; omega⟩
-  | setPayloadBlock f d =>
+  | setPayloadBlock n f d =>
     obtain ⟨h1, h2, h3⟩ := inv_setPayloadBlock b h f d hok
-    exact ⟨h1, h2, by show (b.setPayloadBlock (newPayloadBlock f d)).canon.length ≤ _; omega⟩
+    show Inv (b.setPayloadBlock (payloadBlockReq n f d)) ∧ (b.setPayloadBlock (payloadBlockReq n f d)).payload = _ ∧
+      (b.setPayloadBlock (payloadBlockReq n f d)).canon.length ≤ _
+    rw [setPayloadBlock_num]
+    exact ⟨h1, h2, by omega⟩
   | setCrc t =>
     exact ⟨inv_setCrc b h t hok, (payload_setCrc b t).1, by show (b.setCrc t).canon.length ≤ _; rw [(payload_setCrc b t).2]; omega⟩
   | upd node rt now =>
@@ -848,7 +859,7 @@ def ops0 : List Op :=
     .add { btype := 192, num := 2, flags := 1, crc := .empty16, data := .unknown [1, 2, 3] },
     .setPayload [1, 2, 3],
     .setCrc 2,
-    .setPayloadBlock 0 [9],
+    .setPayloadBlock 0 0 [9],
     .upd (.ipn 2 5 0) 10 1000 ]
 
 theorem inv_b0 : Inv b0 :=
